@@ -47,6 +47,7 @@ func main() {
 	progress := fs.String("progress", "", "")
 	deadline := fs.Int64("deadline", 0, "")
 	file := fs.String("file", "", "replay file")
+	rewrite := fs.Bool("rewrite", false, "replay: re-record the schedule in this (fresh) process if the recorded one does not reproduce the same event log")
 	lenient := fs.Bool("lenient", false, "replay: fall back to canonical order when the trace no longer fits")
 	quiet := fs.Bool("quiet", false, "")
 	verbose := fs.Bool("v", false, "replay: print the event log")
@@ -85,12 +86,64 @@ func main() {
 			os.Exit(2)
 		}
 		strict := !*lenient
-		rep, got, hashes, texts, infra := core.Replay(p, f, strict, *verbose)
+		if len(f.Traces) == 0 {
+			// found without a schedule (see core.Shrink): run the seeded schedules of its run index
+			rep, got, hashes, traces, infra := core.ReplaySeeded(p, f)
+			if infra != "" {
+				fmt.Fprintln(os.Stderr, "infra:", infra)
+				os.Exit(2)
+			}
+			if *rewrite {
+				if rep {
+					f.Traces, f.LogHashes = traces, hashes
+					f.Note += "; recorded in a fresh process"
+					if js, err := json.MarshalIndent(f, "", " "); err == nil {
+						os.WriteFile(*file, js, 0o644)
+					}
+				}
+				os.Exit(0)
+			}
+			if rep {
+				if !*quiet {
+					fmt.Printf("reproduced: class=%s site=%s event-log-identical=%v (no recorded schedule: seeded schedules of run %d)\n", f.Violation.Class, f.Violation.Site, false, f.RunIndex)
+					for _, v := range got {
+						fmt.Printf("  %s @%s: %s\n", v.Class, v.Site, v.Detail)
+					}
+					fmt.Printf("VIOLATION property=%s replay=%s\n", p.ID(), *file)
+				}
+				os.Exit(1)
+			}
+			if !*quiet {
+				fmt.Printf("not reproduced: the recorded violation (class=%s site=%s) does not occur on this tree\n", f.Violation.Class, f.Violation.Site)
+			}
+			os.Exit(0)
+		}
+		rep, got, hashes, texts, traces, infra := core.ReplayTraces(p, f, strict, *verbose)
 		if infra != "" && strict {
 			// the tree may have changed since the file was written: retry leniently, say so
-			fmt.Fprintf(os.Stderr, "strict replay failed (%s); retrying with lenient schedule\n", infra)
-			rep, got, hashes, texts, infra = core.Replay(p, f, false, *verbose)
+			if !*rewrite {
+				fmt.Fprintf(os.Stderr, "strict replay failed (%s); retrying with lenient schedule\n", infra)
+			}
+			rep, got, hashes, texts, traces, infra = core.ReplayTraces(p, f, false, *verbose)
 			strict = false
+		}
+		if *rewrite {
+			// called by the parent right after a replay file was written by a worker that
+			// had executed other cases before: if the code under test keeps state per
+			// process, the worker's schedule does not fit a fresh process. Re-record the
+			// schedule here, in a fresh process, so that the file replays exactly in one.
+			differs := len(hashes) != len(f.LogHashes)
+			for i := 0; !differs && i < len(hashes); i++ {
+				differs = hashes[i] != f.LogHashes[i]
+			}
+			if infra == "" && rep && differs && len(traces) == len(hashes) && len(traces) > 0 {
+				f.Traces, f.LogHashes = traces, hashes
+				f.Note = "schedule re-recorded in a fresh process (the worker's did not fit one: state kept per process)"
+				if js, err := json.MarshalIndent(f, "", " "); err == nil {
+					os.WriteFile(*file, js, 0o644)
+				}
+			}
+			os.Exit(0)
 		}
 		if infra != "" {
 			fmt.Fprintln(os.Stderr, "infra:", infra)
